@@ -35,6 +35,13 @@ def run(ctx):
     unknown_flags = json.load(open(os.path.join(d3, 'summary.json')))['unknown_boolean_flags'] or []
     for fl in json.load(open(os.path.join(d3, 'summary.json'))).get('unknown_value_flags') or []:
         ctx.drift.append('the tool has a switch -%s <value> that no specification here models: what it loads or changes is not judged' % fl)
+    # what the repository's own tests make the lints report (recorded in the test processes: vlib.suite_traces)
+    vlib.suite_traces(ctx)
+    d4 = vlib.drive(ctx, exe, 'suite')
+    for s in json.load(open(os.path.join(d4, 'statuses.json'))) or []:
+        n, st = s.rsplit('|', 1)
+        observed.setdefault(n, set()).add(int(st))
+    suite_execs = json.load(open(os.path.join(d4, 'summary.json')))['recorded_executions']
     # runtime names (every registered lint gets an event, in the census or not)
     names = sorted(set(observed) | {r['name'] for r in ex['registrations']})
     byname = {r['name']: r for r in ex['registrations']}
@@ -60,7 +67,7 @@ def run(ctx):
                             dict(lint=e['name'], status=LABEL[st], how=why, event=e))
     findings = sum(1 for n in names if observed.get(n, set()) & {4, 5, 6})
     cov = dict(evaluations=sum(len(byname.get(n, {}).get('direct', [])) + len(observed.get(n, ())) for n in names),
-               distinct_nontrivial=findings, programs=len(names), exhaustive=True,
+               distinct_nontrivial=findings, programs=len(names), exhaustive=True, repository_suite_executions=suite_execs,
                rule='one event per registered lint (all of them): statically emittable statuses of every return path (SSA) + statuses observed on the corpus; '
                     'non-trivial = lints observed with a finding status',
                samples=[json.loads(lines[0]), json.loads(lines[len(lines) // 2])], planted_inputs=planted, unknown_tool_flags=unknown_flags,
